@@ -28,6 +28,7 @@ func init() {
 }
 
 func runC05(c *core.Ctx) {
+	c.Floor("zero-copy reads examined for lost end-of-input (p2p messages)", checkEofNotLost(c, "C05.eof-not-lost", funcsOfPkgs(c, "p2pserver/message/types", "p2pserver/common")), 20)
 	checkEncoderCounts(c, "C05.count-matches-elements", func(rel string) bool { return strings.HasPrefix(rel, "p2pserver/message") }, 1, 1)
 	n := checkCodecPairs(c, "C05.schema", func(p codecPair) bool { return strings.HasPrefix(p.Pkg, "p2pserver/") })
 	c.Floor("codec pairs under p2pserver/", n, 14)
